@@ -1,7 +1,7 @@
 (* Wire glue for C20: "guess G <hex>" and "guess S <a> <b>" (soft equality both ways; "-" is the empty name),
    "guess V <hex>" (IsValidType through the regenerated key set). *)
 From Coq Require Import String List ZArith NArith Bool.
-From JS Require Import Base.Wire Base.Res Spec.TypeVocab Model.TypeGuess Gen.TypeTables Proofs.TypeProofs Extract.RunNum.
+From JS Require Import Base.Wire Base.Res Spec.TypeVocab Model.TypeGuess Gen.TypeTables Model.TypeSoft Extract.RunNum.
 Import ListNotations.
 
 Definition show_guess (r : res string) : bytes :=
